@@ -19,7 +19,7 @@ class CHECK(Check):
     rule = ("delimited layouts of 1-6 fields of mixed kinds x delimiters {; , | :: TAB ' ; ' ab} x fitting value lists whose "
             "renderings contain neither the delimiter nor surrounding blanks (checked per case, others are counted and "
             "skipped) x sequences of 1-6 successive reads through the same Line object, through a new Line object over the same "
-            "Field objects per call (as Register.read does), or reads only: the written line as is, with "
+            "Field objects per call (as Register.read does), through a delimited register class (identifier of width 0-4 as first token, one register object or one per line), or reads only: the written line as is, with "
             "random blank padding around tokens, truncated to fewer tokens (short), extended with surplus tokens (long), "
             "and lines of garbage tokens; after every read all values are compared. non-trivial = the sequence contains "
             "a short line after a longer one, or padding; distinct = hash"
@@ -38,7 +38,12 @@ class CHECK(Check):
                 lines.append({"values": vals, "kind": kind, "k": rng.randint(0, max(0, len(fs) - 1)), "seed": rng.getrandbits(30)})
             # how the implementation is driven: one Line object for everything; a new Line object over the same Field objects for
             # every write and every read (what Register.read does with its class-level fields); reads only, no write in between
-            yield {"fields": fs, "delim": d, "lines": lines, "via": rng.choice(["line", "line", "fresh", "fresh", "readonly"])}
+            case = {"fields": fs, "delim": d, "lines": lines, "via": rng.choice(["line", "line", "fresh", "fresh", "readonly", "register", "register"])}
+            if case["via"] == "register":
+                # a delimited register class: the identifier (possibly of zero width: a plain table) is the first token
+                ident = rng.choice(["", "", "ID", "R1"])
+                case["ident"] = [ident, len(ident) + (rng.choice([0, 0, 2]) if ident else 0), rng.random() < 0.5]
+            yield case
 
     @staticmethod
     def derive_text(case, ln, written):
@@ -65,6 +70,8 @@ class CHECK(Check):
         via = case.get("via", "line")
         line = Line(flds, delimiter=case["delim"])
         out = []
+        if via == "register":
+            return self.impl_register(case, flds)
         for ln in case["lines"]:
             if via == "readonly":
                 w = case["delim"].join(rendering(fd, v).strip() for fd, v in zip(case["fields"], ln["values"])) + "\n"
@@ -77,6 +84,45 @@ class CHECK(Check):
             text = self.derive_text(case, ln, w)
             r = (Line(flds, delimiter=case["delim"]) if via == "fresh" else line).read(text)
             out.append({"written": w, "text": text, "read": [fl.canon_value(x) for x in r]})
+        return out
+
+    def impl_register(self, case, flds):
+        """the same sequence driven through a delimited register class: Register.write / Register.read on text buffers; the identifier
+        token is split off what is written and put in front of what is read, the rest is observed as for a bare Line"""
+        import io
+        from cfinterface.components.line import Line
+        from cfinterface.components.register import Register
+        d = case["delim"]
+        ident, digits, same = case["ident"]
+        ns = {"LINE": Line(flds, delimiter=d), "__slots__": []}
+        if ident or not same:
+            ns.update({"IDENTIFIER": ident, "IDENTIFIER_DIGITS": digits})    # else: a plain table relying on the framework's defaults
+        R = type("VDelimRegister", (Register,), ns)
+        reg = R()
+        out = []
+        for ln in case["lines"]:
+            vals = [fl.py_value(v) for v in ln["values"]]
+            if all(v is None for v in vals):
+                # Register.write writes nothing for a register without any value: the text is the reference rendering
+                w = d.join(rendering(fd, v).strip() for fd, v in zip(case["fields"], ln["values"])) + "\n"
+            else:
+                buf = io.StringIO()
+                wr = reg if same else R()
+                wr.data = vals
+                try:
+                    wr.write(buf)
+                except OverflowError:
+                    out.append({"raised": "OverflowError"})
+                    continue
+                full = buf.getvalue()
+                if not full.startswith(ident + d):
+                    out.append({"written": full, "text": "", "read": []})
+                    continue
+                w = full[len(ident + d):]
+            text = self.derive_text(case, ln, w)
+            rd = reg if same else R()
+            rd.read(io.StringIO(ident + d + text))
+            out.append({"written": w, "text": text, "read": [fl.canon_value(x) for x in rd.data]})
         return out
 
     def model_arg(self, case):
